@@ -27,7 +27,5 @@ INVARIANT WellFormed
 INVARIANT Terminates
 INVARIANT Completes
 INVARIANT Refines
-INVARIANT ContextRestored
-INVARIANT PythonGated
 POSTCONDITION WriteCases
 CHECK_DEADLOCK FALSE
